@@ -224,7 +224,13 @@ def spec(c):
     if fn == "zip3_with":
         src, f = BINF[cb]
         zs = [(x * 3 + 1) % 10 for x in xs[1:]]
-        return "zip(%s, %s, %s, %s)" % (S, render(ys), render(zs), src), [f(f(a, b), c) for a, b, c in zip(xs, ys, zs)], "eq"
+        # unlike ziplongest, zip hands the whole tuple to the function in ONE call: f(a, b, c)
+        trip = list(zip(xs, ys, zs))
+        if cb == "max":
+            exp = [max(t) for t in trip]
+        else:
+            exp = Err if trip else []      # + - and the two-parameter lambda refuse three arguments
+        return "zip(%s, %s, %s, %s)" % (S, render(ys), render(zs), src), exp, "eq"
     if fn == "pairwise":
         src, f = BINF[cb]
         return "%s pairwise %s" % (S, src), [f(a, b) for a, b in zip(xs, xs[1:])], "eq"
